@@ -43,7 +43,8 @@ def req_cases(prop, abstract, rnd, tier):
         for d in range(draws if prop == "C03" else (3 if tier == "quick" else 12)):
             c = dict(a)
             c.update(codec=rnd.choice(["json", "proto"]), gzip=rnd.random() < 0.25, spell=rnd.choice(["json", "proto"]),
-                     invalid="", table=(d % 2 == 0), stream=rnd.random() < 0.15, fam="tc", zeropath=(prop == "C07" and d % 3 == 2))
+                     invalid="", table=(d % 2 == 0), stream=rnd.random() < 0.15, fam="tc", zeropath=(prop == "C07" and d % 3 == 2),
+                     framing=rnd.choice(["", "", "unsized", "chunked"]))
             out.append(c)
         if prop == "C03":
             # one invalid text per shape, in a path-bound or query-carried scalar
@@ -52,30 +53,31 @@ def req_cases(prop, abstract, rnd, tier):
                 if role in a["present"] and a["body"] != "*":
                     cands.append(role)
             c = dict(a)
-            c.update(codec="json", gzip=False, spell="proto", invalid=rnd.choice(cands), table=True, stream=False, fam="tc", zeropath=False)
+            c.update(codec="json", gzip=False, spell="proto", invalid=rnd.choice(cands), table=True, stream=False, fam="tc", zeropath=False, framing="")
             out.append(c)
     return out
 
 
 def resp_cases(rnd, tier):
-    types = ["application/json", "application/protobuf", "application/octet-stream", "application/*", "*/*", "text/html", "image/*"]
+    types = ["application/json", "application/protobuf", "application/octet-stream", "application/x-verif", "application/*", "*/*", "text/html", "image/*"]
     ranges = [dict(type=t, q=q) for t in types for q in (10, 5, 0)]
     accepts = [[]] + [[r] for r in ranges] + [list(p) for p in itertools.product(ranges, repeat=2)]
     accepts += [list(p) for p in rnd.sample(list(itertools.product(ranges, repeat=3)), 400 if tier == "quick" else 4000)]
     out = []
     for acc in accepts:
-        for reqct in ["application/json", "application/protobuf", "application/octet-stream"]:
+        for reqct in ["application/json", "application/protobuf", "application/octet-stream", "application/x-verif"]:
             kinds = ["msg", "empty", "large", "httpbody"] if tier != "quick" else [rnd.choice(["msg", "msg", "empty", "large", "httpbody"])]
             for kind in kinds:
                 rb = rnd.choice(["", "", "sub", "echo"]) if kind in ("msg", "large") else ""
                 out.append(dict(fam="resp", accept=acc, lines=rnd.choice([1, 1, 2]), reqct=reqct, kind=kind, respbody=rb,
                                 acceptenc=rnd.choice(["", "", "gzip", "gzip, deflate", "identity", "*", "br;q=1, gzip;q=0.5"]),
-                                junk=rnd.choice(["", "", "", ";;;", "q=0.5", "text/", "\"quoted\""])))
+                                junk=rnd.choice(["", "", "", ";;;", "q=0.5", "text/", "\"quoted\""]),
+                                hdr=rnd.choice(["", "", "set", "send"])))
     # the unregistered pseudo type larking keeps in its codec table
     for reqct in ["application/json", "application/protobuf"]:
         for kind in ["msg", "httpbody"]:
             out.append(dict(fam="resp", accept=[dict(type="google.api.HttpBody", q=10)], lines=1, reqct=reqct, kind=kind, respbody="",
-                            acceptenc="", junk=""))
+                            acceptenc="", junk="", hdr=""))
     rnd.shuffle(out)
     return out[: (3000 if tier == "quick" else 60000)]
 
